@@ -45,8 +45,8 @@ type Config struct {
 	Name  string `json:"name"`
 	Codec string `json:"codec,omitempty"` // "", vp8, vp9, h264
 	V     []VF   `json:"v,omitempty"`
-	A     []int  `json:"a,omitempty"`     // audio frame sizes
-	AOff  int    `json:"aoff,omitempty"`  // capture offset of audio frame 0 relative to video frame 0, ms
+	A     []int  `json:"a,omitempty"`    // audio frame sizes
+	AOff  int    `json:"aoff,omitempty"` // capture offset of audio frame 0 relative to video frame 0, ms
 	VTS0  uint32 `json:"vts0,omitempty"`
 	ATS0  uint32 `json:"ats0,omitempty"`
 	VSeq0 uint16 `json:"vseq0,omitempty"`
@@ -74,20 +74,20 @@ const (
 )
 
 type pkt struct {
-	G      int // global pattern seed
-	Track  int
-	Frame  int // frame index within the track
-	Pos    int // position within the frame
-	Seq    uint16
-	TS     uint32
-	Marker bool
-	KF     bool // first packet of a keyframe
-	Raw    []byte
-	Pay    []byte        // RTP payload
-	Cap    time.Duration // capture instant
-	Pre    bool          // belongs to a pre-roll frame
-	Macro  bool          // delivered by the pre-roll macro (not by the explored history)
-	PreLost bool         // pre-roll packet that is lost (audio pre-roll)
+	G       int // global pattern seed
+	Track   int
+	Frame   int // frame index within the track
+	Pos     int // position within the frame
+	Seq     uint16
+	TS      uint32
+	Marker  bool
+	KF      bool // first packet of a keyframe
+	Raw     []byte
+	Pay     []byte        // RTP payload
+	Cap     time.Duration // capture instant
+	Pre     bool          // belongs to a pre-roll frame
+	Macro   bool          // delivered by the pre-roll macro (not by the explored history)
+	PreLost bool          // pre-roll packet that is lost (audio pre-roll)
 }
 
 type frame struct {
